@@ -397,7 +397,29 @@ def inductive(run, module, cinits, legacy_cinit, nonvacuity_inv, mc_info):
 
 # ---------------------------------------------------------------- generic family pipeline
 
-def simple_family(run, fam, replay=None):
+def simple_family(run, fam, replay=None, stages=()):
+    """stages: further families run as stages of this check (not when replaying a witness): (coverage key, family)"""
+    cov = family_stage(run, fam, replay)
+    if replay is None:
+        for key, other in stages:
+            cov[key] = sub_stage(run, other)
+    return finish(run, "model_checking", cov, fam["assumptions"])
+
+
+def sub_stage(run, fam):
+    """runs another family's pipeline as a stage of this check: its violations / known findings are added to the
+    run, its counters are kept apart; returns its coverage"""
+    saved = run.cov
+    run.cov = {}
+    try:
+        cov = family_stage(run, fam, None)
+    finally:
+        run.cov = saved
+    cov["assumptions"] = fam["assumptions"]
+    return cov
+
+
+def family_stage(run, fam, replay=None):
     """fam: dict with
       mc: list of (module, cfg_text, tag) run exhaustively by TLC (cases exported as CASE lines)
       mc_must_violate: list of (module, cfg_text, tag, what) counter-models TLC must refute
@@ -488,4 +510,4 @@ def simple_family(run, fam, replay=None):
     }
     if fam.get("extra_cov"):
         cov.update(fam["extra_cov"](clean, cases))
-    return finish(run, "model_checking", cov, fam["assumptions"])
+    return cov
